@@ -489,7 +489,8 @@ type dsResult struct {
 	compacted  int64
 	blockOK    bool
 	infra      string
-	cut        string // non-empty: the hard deadline stopped this data set
+	all        []string // replay -all: every mismatch
+	cut        string   // non-empty: the hard deadline stopped this data set
 }
 
 type api interface {
@@ -751,6 +752,9 @@ func (c *checker) add(op string, args []string, got, want string) {
 	// keep the lowest (stage, op, arguments) per class: independent of goroutine interleaving
 	if old, ok := c.res.firstByKey[key]; !ok || m.less(old) {
 		c.res.firstByKey[key] = m
+	}
+	if keepAll && len(c.res.all) < 5000 {
+		c.res.all = append(c.res.all, key+" "+m.String())
 	}
 }
 
@@ -1275,6 +1279,7 @@ const causeSeparator = "index-separator-not-below-next-key"
 
 var theDiag contractDiag
 var hardDeadline time.Time
+var keepAll bool
 
 var timing = os.Getenv("VERIF_C11_TIMING") != ""
 
@@ -1568,6 +1573,7 @@ func main() {
 
 func realMain() {
 	replay := flag.String("replay", "", "replay file")
+	flag.BoolVar(&keepAll, "all", false, "with -replay: print every mismatching read, not only the first of each class")
 	flag.Parse()
 	oxh.Quiet()
 	debug.SetGCPercent(400)
@@ -1822,6 +1828,9 @@ func doReplay(path string, U3, U1 []string) int {
 		sort.Strings(ks)
 		for _, k := range ks {
 			fmt.Printf("  key=%s %s keys=%s: %s (%d reads of this class differ)\n", k, sp.Name, renderList(sp.Keys), r.firstByKey[k].String(), r.byKey[k])
+		}
+		for _, l := range r.all {
+			fmt.Println("    " + l)
 		}
 		return 1
 	}
